@@ -105,7 +105,7 @@ NOT_YET = {
 }
 
 # checks built by sub-agents: texts are taken from the "Proposed MANIFEST texts" section of notes/<ID>.md
-AGENT_NOTES = {"C16": "C16.md", "C20": "C20.md", "C13": "C13.md", "C14": "C14.md", "C03": "C03.md", "C10": "C10.md", "C11": "C11.md"}
+AGENT_NOTES = {"C16": "C16.md", "C20": "C20.md", "C13": "C13.md", "C14": "C14.md", "C03": "C03.md", "C10": "C10.md", "C11": "C11.md", "C01": "C01.md", "C17": "C17.md", "C18": "C18.md"}
 
 
 def grab(path):
@@ -127,7 +127,7 @@ def grab(path):
 
 for _pid, _f in AGENT_NOTES.items():
     _g = grab(os.path.join(VERIF, "notes", _f))
-    CHECKS[_pid] = (_g["technique"], _g["text"], _g["note"], "DESIGN.md section 5 %s, notes/%s" % (_pid, _f))
+    CHECKS[_pid] = (_g["technique"], _g.get("text") or _g["technique"], _g["note"], "DESIGN.md section 5 %s, notes/%s" % (_pid, _f))
 
 
 def main():
